@@ -15,6 +15,26 @@ Theorem C13_scan : forall segs last,
 Proof. exact scan_template. Qed.
 Print Assumptions C13_scan.
 
+(* the substitution itself: every {ref} is replaced by the (shown) value it resolves to - a document path first, else a
+   variable - and every other piece of text is kept as it is, in order. [settled v]: a referenced string that is itself a
+   template or variable string is evaluated further (one more level) - excluded here. The two premises about [s] say
+   that it is  $"body"  with  body = l1{r1}l2{r2}...last . *)
+Theorem C13_substitute : forall o S di f ec s segs last vals,
+  is_interp s = true -> trim_suffix """" (trim_prefix "$""" s) = tmpl segs last ->
+  Forall (fun lr => nobrace (fst lr) /\ noclose (snd lr)) segs -> nobrace last ->
+  Forall2 (fun lr v => get_with_var o S di ec (snd lr) = Ok v /\ settled v) segs vals ->
+  p2_string o S di (Datatypes.S f) ec s = Ok (VStr (String.concat "" (subst_parts segs vals ++ [last]))).
+Proof. exact interp_substitute. Qed.
+Print Assumptions C13_substitute.
+
+(* its premises are met:  $"a{x}-{$env:V}!"  over the document {x: 7} with V=w *)
+Example C13_substitute_example :
+  let o := {| o_env := [("V", "w")]; o_yaml := fun s => Ok (VStr s); o_enc := fun _ _ => Err EOracle; o_dec := fun _ _ => Err EOracle;
+              o_fmt := fun _ => false; o_sha := fun _ => Err EOracle; o_lower := fun _ => false |} in
+  p2_string o [VMap [("x", VInt 7)]] 0 3 (env_ctx o) "$""a{x}-{$env:V}!""" = Ok (VStr "a7-w!")
+  /\ trim_suffix """" (trim_prefix "$""" "$""a{x}-{$env:V}!""") = tmpl [("a", "x"); ("-", "$env:V")] "!".
+Proof. split; vm_compute; reflexivity. Qed.
+
 (* a missing reference or unset variable is an error, never an empty substitution *)
 Theorem C13_missing : forall o S di f ec s r,
   is_interp s = true -> In (Ref r) (scan (trim_suffix """" (trim_prefix "$""" s)) EmptyString None) ->
